@@ -16,13 +16,13 @@ def fix(m):
 tab = re.sub(r"\| (C\d\d) \| \d+ \|", fix, tab)
 s = s[:a] + tab + s[b:]
 a, b = s.index("<!-- TABLE07 -->"), s.index("<!-- /TABLE07 -->")
-rows = ["<!-- TABLE07 -->", "| id | mutants killed (by VIOLATION) / run | rewrites silent / run | stored seeds fired | stored refactorings green | thorough wall s |", "|----|----|----|----|----|----|"]
+rows = ["<!-- TABLE07 -->", "| id | mutants killed (by VIOLATION) / run | rewrites silent / run | surroundings variants reported / run | stored seeds fired | stored controls green | thorough wall s |", "|----|----|----|----|----|----|----|"]
 for pid, e in ev.items():
     c = e["coverage"]; st = c.get("selftest", {}); co = c.get("corpus", {})
     seeds = co.get("seeds", [])
     fired = sum(1 for x in seeds if "=> violation" in x) if isinstance(seeds, list) else 0
     rows.append(f"| {pid} | {st.get('mutants_killed')} ({st.get('killed_by_violation')}) / {(st.get('mutants_run') or 0) - (st.get('mutants_invalid') or 0)} | "
-                f"{st.get('rewrites_silent')}/{st.get('rewrites_run')} | {fired}/{len(seeds) if isinstance(seeds, list) else 0} | "
+                f"{st.get('rewrites_silent')}/{st.get('rewrites_run')} | {st.get('surroundings_red')}/{st.get('surroundings_run')} | {fired}/{len(seeds) if isinstance(seeds, list) else 0} | "
                 f"{co.get('refactorings_green')}/{co.get('refactorings')} | {e['wall_s']:.1f} |")
 s = s[:a] + "\n".join(rows) + "\n" + s[b:]
 open(p, "w").write(s)
